@@ -38,6 +38,7 @@ func (s *XStore) StartOp(faultAt int, tracing bool) {
 	s.faultAt = faultAt
 	s.fired = false
 	s.txBegun = 0
+	s.mutUnderCursor = 0
 	s.tracing = tracing
 }
 
